@@ -627,8 +627,6 @@ func (pr *ProtoArray) OnPrune(ctx context.Context, anchorRoot Root, anchorSlot S
 		}
 		prunedUpTo++
 	}
-	// adjust the slot we know for the anchor root, everything before it was pruned.
-	pr.blockSlots[anchorRoot] = anchorSlot
 	for _, p := range pruned[:prunedUpTo] {
 		delete(pr.indices, p.node.Ref)
 		// Remove the block-slots ref
@@ -638,6 +636,9 @@ func (pr *ProtoArray) OnPrune(ctx context.Context, anchorRoot Root, anchorSlot S
 		// update offset
 		pr.indexOffset++
 	}
+	// adjust the slot we know for the anchor root, everything before it was pruned.
+	// (after the removals above: earlier nodes of the anchor root itself may have been pruned)
+	pr.blockSlots[anchorRoot] = anchorSlot
 	// Detach the remaining nodes from pruned parents, their indices are not valid anymore.
 	for i := range pr.nodes {
 		node := &pr.nodes[i]
